@@ -14,7 +14,10 @@ META = {
             "lines, continuation lines and only they start with SP/HT; values are the maximal white-space-trimmed "
             "infix; names are canonical by the regenerated table); the stored entries of an accepted block are the "
             "reference fields except for the Content-Length/Transfer-Encoding treatment decided by C26; every entry "
-            "list the parser can produce packs to bytes that parse back to the same entries; blocks with NUL, a "
+            "list a parse stores consists of storable entries, and packing stored entries and parsing the bytes again "
+            "(whole HttpHeader::parse incl. the Content-Length stage) returns the same entries - proved for results whose "
+            "values hold no CR/LF (_partial: values that still contain an obs-fold are covered by correspondence and "
+            "oracle only); blocks with NUL, a "
             "request field with white space before the colon, obs-fold or bare CR in Content-Length/Transfer-Encoding "
             "and CR-only request lines are rejected. Tie: extracted model vs the real HttpHeader::parse/packInto/"
             "HttpHeaderEntry::parse compiled from the working tree (UBSan), 0 disagreements; independent Python "
@@ -511,5 +514,5 @@ def run(res, tier):
     std.run_standard(res, PID, tier, area="hdrparse", build_impl=impl, gen_cases=gen_cases, oracle=oracle,
                      corr_name="HdrparseModel vs src/HttpHeader.cc (HttpHeader::parse, HttpHeaderEntry::parse, packInto), "
                                "src/http/RegisteredHeaders.cc",
-                     gens=["charsets", "hdrtable"], n_quick=30000, n_thorough=500000, seed_salt=25, mutate=mutate,
+                     gens=["charsets", "hdrtable"], n_quick=20000, n_thorough=500000, seed_salt=25, mutate=mutate,
                      kind_fn=kind, nontrivial_fn=nontrivial)
